@@ -402,11 +402,13 @@ func genC07(cs *CaseSet, rng *Rng, tier string, dir string) {
 		})
 		// folder upload: hostile item paths on the transfer connection
 		segs := [][]byte{hostileName(rng), hostileName(rng)}
-		switch rng.Intn(3) {
+		switch rng.Intn(4) {
 		case 0:
 			segs = [][]byte{[]byte(".."), []byte(".."), []byte(victimName)}
 		case 1:
 			segs = [][]byte{[]byte(".."), []byte(".."), []byte(fmt.Sprintf("escaped-%d", k))}
+		case 2: // a nested tail whose parent was never announced (and does not exist), behind a climb of several levels
+			segs = [][]byte{[]byte(".."), []byte(".."), []byte(".."), []byte(fmt.Sprintf("pwn-%d", k)), []byte("deep")}
 		}
 		effect("folder-upload-item", env.FileRoot, segs, func() ([]hotline.Transaction, [][]byte) {
 			res := call(mobius.HandleUploadFolder, hotline.TranUploadFldr,
